@@ -26,6 +26,7 @@ func C01(c *Ctx) {
 func ctlStream(c *Ctx) []*e1.Program {
 	q := c.Rep.QuarantinedFeatures()
 	progs := append(cases.Ctl(), cases.Accept()...)
+	progs = append(progs, cases.Range()...)
 	nodes, capN, nrand := 3, 1500, 400
 	if c.Thorough() {
 		nodes, capN, nrand = 5, 20000, 5000
@@ -148,6 +149,44 @@ func C03(c *Ctx) {
 		NonTrivial: func(o *e1.Outcome) bool {
 			return yields2(o) && (o.Prog.Has("shadow") || o.Prog.Has("closure-capture-across-yield") || o.Prog.Has("for-post-yield"))
 		},
+		MinDistinct: 300,
+	})
+}
+
+// C04 — range loops inside generators behave like Go's range.
+func C04(c *Ctx) {
+	q := c.Rep.QuarantinedFeatures()
+	keep := 900
+	if c.Thorough() {
+		keep = 0
+	}
+	gen, total := genr.Range(c.Seed, keep, q)
+	progs := append(cases.Range(), gen...)
+	c.Rep.Set("systematic_range_programs_total", total)
+	c.Rep.Exhaustive = keep == 0
+	c.Rep.Rule = "systematic cross product: 18 collection kinds (ASCII / multi-byte / invalid-UTF-8 / empty / reassigned strings, slices incl. nil and spare capacity, arrays, maps, channels, ints incl. 0 and negative) x 8 variable forms (none, k, k/_ , k/v, _/v with := and =) x 6 body shapes (yielding, non-yielding, inside a nested closure, break/continue, nested ranges, body updates the iteration variable) x mutation of the ranged collection at the first iteration; range expression wrapped to count evaluations; reference = Go's native range statement on the same text. Multi-entry maps compared as sorted multisets. non-trivial = >= 2 yields; distinct = program text hash x tape."
+	RunE1(c, E1Spec{
+		Programs:    progs,
+		Opts:        e1.Opts{Hist: []int{1, 3}, HistPaths: 2},
+		Kinds:       []string{"CR-full", "STUB"},
+		NonTrivial:  yields2,
+		MinDistinct: 300,
+	})
+}
+
+// C05 — YieldFrom splices the delegate lazily and in order.
+func C05(c *Ctx) {
+	n := 250
+	if c.Thorough() {
+		n = 3000
+	}
+	progs := append(cases.Deleg(), genr.Deleg(n, c.Seed)...)
+	c.Rep.Rule = "directed delegation cases (depth-3000 chain fully drained, recursion, partially consumed delegate, same iterator delegated twice, for-post / switch positions, generic and method generators) + PRNG call graphs over leaf / chain / tree-walk / empty / nested-literal delegates; every PRNG program also as its metamorphic twin with `for v := range it { Yield(v) }` spelled out; compared: full trace (argument evaluation events, delegate-side effects, lockstep) compiled vs reference coroutine under every tape path and truncation histories. non-trivial = >= 2 yields; distinct = program text hash x tape."
+	RunE1(c, E1Spec{
+		Programs:    progs,
+		Opts:        e1.Opts{Hist: []int{0, 1, 3, 6}, HistPaths: 3, MaxPaths: 32},
+		Kinds:       []string{"CR-full", "STUB"},
+		NonTrivial:  yields2,
 		MinDistinct: 300,
 	})
 }
